@@ -1,9 +1,791 @@
-use crate::check::CompResult;
+//! C18 — `raft::Inflights` is a bounded FIFO under resizing.
+//!
+//! Joint breadth-first search over pairs *(real `Inflights`, reference model)*. The model is a
+//! `VecDeque<u64>` plus the capacity in force and the pending (reduced) capacity. Every
+//! operation of the alphabet is applied from every reachable pair until a fixpoint is reached
+//! under the bound on the number of `add`s.
+//!
+//! `Inflights: Clone` does not preserve `Vec::capacity()` (which `add`/`set_cap` branch on), so
+//! states are never cloned: every expansion re-executes the recorded shortest operation path
+//! from `Inflights::new(cap)` and then applies one more operation. Every explored pair is
+//! therefore reached by a real call history, and a reported sequence is a shortest one.
+//!
+//! Alphabet (from `new(c)`, c in 1..=C; indexes start at 1, `next` = last added + 1;
+//! quick: C = 4 and at most 8 adds per history, thorough: C = 6 and at most 12 adds):
+//!   add(next), add(next+2)      only when the model is not full (documented panic otherwise)
+//!                               and fewer than ADD_BOUND adds were made
+//!   free_to(v)                  v in first-1 ..= last+1 (every element, every gap, both outsides);
+//!                               on an empty window v in {0, next-1, next}
+//!   free_first_one, reset, maybe_free_buffer
+//!   set_cap(c)                  c in 0..=C
+//!
+//! Oracle after every operation: no panic; `count()`, `full()` and the window contents (FIFO
+//! order, via `verif_view()`) equal the model; `full()` == (len >= most recently requested
+//! capacity); once the window has drained the requested capacity is the capacity in force and
+//! nothing is pending; `maybe_free_buffer` releases the buffer of an empty window and changes
+//! nothing observable otherwise.
 
-pub fn run(_tier: &str, _seed: u64, _budget_s: f64, _threads: usize) -> CompResult {
-    super::not_built("inflights")
+use crate::check::CompResult;
+use crate::util::guarded;
+use raft::Inflights;
+use serde_json::{json, Value};
+use std::collections::{HashMap, VecDeque};
+use std::time::Instant;
+
+const ENGINE: &str = "inflights";
+const MAX_KINDS: usize = 5;
+
+#[derive(Clone, Copy, Debug, PartialEq, Eq)]
+enum Op {
+    Add(u64),
+    FreeTo(u64),
+    FreeFirst,
+    Reset,
+    SetCap(usize),
+    MaybeFree,
 }
 
-pub fn replay(_j: &serde_json::Value) -> i32 {
-    2
+impl Op {
+    fn to_json(self) -> Value {
+        match self {
+            Op::Add(v) => json!({"op": "add", "v": v}),
+            Op::FreeTo(v) => json!({"op": "free_to", "v": v}),
+            Op::FreeFirst => json!({"op": "free_first_one"}),
+            Op::Reset => json!({"op": "reset"}),
+            Op::SetCap(c) => json!({"op": "set_cap", "v": c}),
+            Op::MaybeFree => json!({"op": "maybe_free_buffer"}),
+        }
+    }
+    fn from_json(j: &Value) -> Option<Op> {
+        let v = j.get("v").and_then(|x| x.as_u64());
+        Some(match j.get("op")?.as_str()? {
+            "add" => Op::Add(v?),
+            "free_to" => Op::FreeTo(v?),
+            "free_first_one" => Op::FreeFirst,
+            "reset" => Op::Reset,
+            "set_cap" => Op::SetCap(v? as usize),
+            "maybe_free_buffer" => Op::MaybeFree,
+            _ => return None,
+        })
+    }
+    fn pack(self) -> u16 {
+        match self {
+            Op::Add(v) => (v as u16) << 3,
+            Op::FreeTo(v) => 1 | (v as u16) << 3,
+            Op::FreeFirst => 2,
+            Op::Reset => 3,
+            Op::SetCap(c) => 4 | (c as u16) << 3,
+            Op::MaybeFree => 5,
+        }
+    }
+    fn unpack(p: u16) -> Op {
+        let v = (p >> 3) as u64;
+        match p & 7 {
+            0 => Op::Add(v),
+            1 => Op::FreeTo(v),
+            2 => Op::FreeFirst,
+            3 => Op::Reset,
+            4 => Op::SetCap(v as usize),
+            _ => Op::MaybeFree,
+        }
+    }
+}
+
+/// The boring reference: a FIFO, the capacity in force, a pending reduced capacity.
+#[derive(Clone, Debug, PartialEq, Eq, Hash)]
+struct Model {
+    win: VecDeque<u64>,
+    cap: usize,
+    pending: Option<usize>,
+    /// smallest index the next add may use (last added + 1)
+    next: u64,
+    adds: u32,
+}
+
+impl Model {
+    fn new(cap: usize) -> Model {
+        Model { win: VecDeque::new(), cap, pending: None, next: 1, adds: 0 }
+    }
+    /// The most recently requested capacity: what admission is judged against.
+    fn limit(&self) -> usize {
+        self.pending.unwrap_or(self.cap)
+    }
+    fn full(&self) -> bool {
+        self.win.len() >= self.limit()
+    }
+    fn drained(&mut self) {
+        if self.win.is_empty() {
+            if let Some(c) = self.pending.take() {
+                self.cap = c;
+            }
+        }
+    }
+    fn apply(&mut self, op: Op) {
+        match op {
+            Op::Add(v) => {
+                self.win.push_back(v);
+                self.next = v + 1;
+                self.adds += 1;
+            }
+            Op::FreeTo(v) => {
+                while self.win.front().is_some_and(|f| *f <= v) {
+                    self.win.pop_front();
+                }
+                self.drained();
+            }
+            Op::FreeFirst => {
+                self.win.pop_front();
+                self.drained();
+            }
+            Op::Reset => {
+                self.win.clear();
+                self.drained();
+            }
+            Op::SetCap(c) => {
+                if c >= self.cap {
+                    self.cap = c;
+                    self.pending = None;
+                } else if self.win.is_empty() {
+                    self.cap = c;
+                    self.pending = None;
+                } else {
+                    self.pending = Some(c);
+                }
+            }
+            Op::MaybeFree => {}
+        }
+    }
+    fn alphabet(&self, add_bound: u32, max_cap: usize, out: &mut Vec<Op>) {
+        out.clear();
+        if !self.full() && self.adds < add_bound {
+            out.push(Op::Add(self.next));
+            out.push(Op::Add(self.next + 2));
+        }
+        match (self.win.front(), self.win.back()) {
+            (Some(&f), Some(&l)) => {
+                for v in f.saturating_sub(1)..=l + 1 {
+                    out.push(Op::FreeTo(v));
+                }
+            }
+            _ => {
+                out.push(Op::FreeTo(0));
+                if self.next > 1 {
+                    out.push(Op::FreeTo(self.next - 1));
+                }
+                out.push(Op::FreeTo(self.next));
+            }
+        }
+        out.push(Op::FreeFirst);
+        out.push(Op::Reset);
+        out.push(Op::MaybeFree);
+        for c in 0..=max_cap {
+            out.push(Op::SetCap(c));
+        }
+    }
+}
+
+fn panic_kind(op: Op) -> String {
+    match op {
+        Op::Add(_) => "add-panicked-when-model-not-full".to_string(),
+        Op::FreeTo(_) => "panic-in-free_to".into(),
+        Op::FreeFirst => "panic-in-free_first_one".into(),
+        Op::Reset => "panic-in-reset".into(),
+        Op::SetCap(_) => "panic-in-set_cap".into(),
+        Op::MaybeFree => "panic-in-maybe_free_buffer".into(),
+    }
+}
+
+fn apply_impl(inf: &mut Inflights, op: Op) {
+    match op {
+        Op::Add(v) => inf.add(v),
+        Op::FreeTo(v) => inf.free_to(v),
+        Op::FreeFirst => inf.free_first_one(),
+        Op::Reset => inf.reset(),
+        Op::SetCap(c) => inf.set_cap(c),
+        Op::MaybeFree => inf.maybe_free_buffer(),
+    }
+}
+
+/// Canonical key of the pair. The `Debug` rendering of `Inflights` covers every field
+/// (start, count, the whole ring including stale slots, cap, incoming_cap); whether the
+/// buffer is allocated is the only other thing the code branches on.
+fn pair_key(inf: &Inflights, m: &Model) -> String {
+    format!("{:?}|{}|{:?}|{}|{:?}|{}|{}", inf, inf.buffer_capacity() > 0, m.win, m.cap, m.pending, m.next, m.adds)
+}
+
+#[derive(Default, Clone)]
+struct Counters {
+    wraps: u64,
+    grow_wrapped: u64,
+    grow_unwrapped_nonempty: u64,
+    shrink_nonempty: u64,
+    shrink_empty: u64,
+    drain_pending: u64,
+    drain_pending_by_reset: u64,
+    set_cap_makes_full: u64,
+    set_cap_zero: u64,
+    adds: u64,
+    adds_into_unallocated: u64,
+    free_to_noop: u64,
+    free_to_partial: u64,
+    free_to_all: u64,
+    free_to_gap: u64,
+    maybe_free_released: u64,
+    maybe_free_nonempty: u64,
+    full_seen: u64,
+    full_by_pending: u64,
+    replayed_ops: u64,
+}
+
+impl Counters {
+    fn merge(&mut self, o: &Counters) {
+        self.wraps += o.wraps;
+        self.grow_wrapped += o.grow_wrapped;
+        self.grow_unwrapped_nonempty += o.grow_unwrapped_nonempty;
+        self.shrink_nonempty += o.shrink_nonempty;
+        self.shrink_empty += o.shrink_empty;
+        self.drain_pending += o.drain_pending;
+        self.drain_pending_by_reset += o.drain_pending_by_reset;
+        self.set_cap_makes_full += o.set_cap_makes_full;
+        self.set_cap_zero += o.set_cap_zero;
+        self.adds += o.adds;
+        self.adds_into_unallocated += o.adds_into_unallocated;
+        self.free_to_noop += o.free_to_noop;
+        self.free_to_partial += o.free_to_partial;
+        self.free_to_all += o.free_to_all;
+        self.free_to_gap += o.free_to_gap;
+        self.maybe_free_released += o.maybe_free_released;
+        self.maybe_free_nonempty += o.maybe_free_nonempty;
+        self.full_seen += o.full_seen;
+        self.full_by_pending += o.full_by_pending;
+        self.replayed_ops += o.replayed_ops;
+    }
+    fn json(&self) -> Value {
+        json!({
+            "ring_wraparounds_seen": self.wraps,
+            "grows_while_wrapped": self.grow_wrapped,
+            "grows_unwrapped_nonempty": self.grow_unwrapped_nonempty,
+            "shrinks_while_nonempty": self.shrink_nonempty,
+            "shrinks_while_empty": self.shrink_empty,
+            "drains_with_pending_cap": self.drain_pending,
+            "drains_with_pending_cap_by_reset": self.drain_pending_by_reset,
+            "set_cap_making_window_full": self.set_cap_makes_full,
+            "set_cap_zero": self.set_cap_zero,
+            "adds": self.adds,
+            "adds_into_unallocated_buffer": self.adds_into_unallocated,
+            "free_to_left_of_window": self.free_to_noop,
+            "free_to_partial": self.free_to_partial,
+            "free_to_everything": self.free_to_all,
+            "free_to_gap_value": self.free_to_gap,
+            "maybe_free_buffer_released": self.maybe_free_released,
+            "maybe_free_buffer_on_nonempty": self.maybe_free_nonempty,
+            "full_states_seen": self.full_seen,
+            "full_because_of_pending_cap": self.full_by_pending,
+            "prefix_ops_reexecuted": self.replayed_ops,
+        })
+    }
+}
+
+/// Compares every observer of the implementation with the model after `op`.
+/// `before` is the model before the operation. Returns (kind, detail) on disagreement.
+fn compare(inf: &Inflights, before: &Model, m: &Model, op: Op, was_allocated: bool) -> Option<(String, String)> {
+    let opn = match op {
+        Op::Add(_) => "add",
+        Op::FreeTo(_) => "free_to",
+        Op::FreeFirst => "free_first_one",
+        Op::Reset => "reset",
+        Op::SetCap(_) => "set_cap",
+        Op::MaybeFree => "maybe_free_buffer",
+    };
+    let (start, count, cap, incoming, win) = inf.verif_view();
+    let mwin: Vec<u64> = m.win.iter().copied().collect();
+    let ctx = || {
+        format!(
+            "after {:?}: impl(start={}, count={}, cap={}, incoming_cap={:?}, window={:?}, full={}, allocated={}) model(window={:?}, cap_in_force={}, pending={:?}, full={})",
+            op, start, count, cap, incoming, win, inf.full(), inf.buffer_capacity() > 0, mwin, m.cap, m.pending, m.full()
+        )
+    };
+    if inf.count() != m.win.len() || count != m.win.len() {
+        return Some((format!("count-mismatch-after-{}", opn), ctx()));
+    }
+    if win != mwin {
+        // classify: lost / duplicated / reordered / foreign
+        let what = if win.len() != mwin.len() {
+            "length"
+        } else {
+            let mut a = win.clone();
+            let mut b = mwin.clone();
+            a.sort_unstable();
+            b.sort_unstable();
+            if a == b {
+                "reordered"
+            } else {
+                a.dedup();
+                if a.len() < win.len() {
+                    "duplicated"
+                } else {
+                    "lost-or-foreign"
+                }
+            }
+        };
+        return Some((format!("window-{}-after-{}", what, opn), ctx()));
+    }
+    if inf.full() != m.full() {
+        return Some((format!("full-mismatch-after-{}", opn), ctx()));
+    }
+    if m.win.is_empty() {
+        // drained (or never filled): the requested capacity must be the one in force
+        if cap != m.cap || incoming.is_some() {
+            return Some((format!("capacity-not-in-force-when-drained-after-{}", opn), ctx()));
+        }
+    }
+    if let Op::MaybeFree = op {
+        if before.win.is_empty() {
+            if inf.buffer_capacity() != 0 {
+                return Some(("maybe_free_buffer-kept-buffer-of-empty-window".into(), ctx()));
+            }
+        } else if (inf.buffer_capacity() > 0) != was_allocated {
+            return Some(("maybe_free_buffer-released-buffer-of-nonempty-window".into(), ctx()));
+        }
+    }
+    None
+}
+
+struct Node {
+    parent: u32,
+    op: u16,
+    init_cap: u8,
+    model: Model,
+}
+
+fn path_of(nodes: &[Node], mut i: u32) -> (usize, Vec<Op>) {
+    let mut ops = vec![];
+    while nodes[i as usize].parent != u32::MAX {
+        ops.push(Op::unpack(nodes[i as usize].op));
+        i = nodes[i as usize].parent;
+    }
+    ops.reverse();
+    (nodes[i as usize].init_cap as usize, ops)
+}
+
+fn ops_json(init_cap: usize, ops: &[Op]) -> Value {
+    json!({"init_cap": init_cap, "ops": ops.iter().map(|o| o.to_json()).collect::<Vec<_>>()})
+}
+
+/// Rebuilds the implementation by executing `ops` from `new(init_cap)`.
+fn rebuild(init_cap: usize, ops: &[Op]) -> Result<Inflights, (String, String)> {
+    guarded(|| {
+        let mut inf = Inflights::new(init_cap);
+        for &op in ops {
+            apply_impl(&mut inf, op);
+        }
+        inf
+    })
+}
+
+struct Succ {
+    parent: u32,
+    op: Op,
+    key: String,
+    model: Model,
+}
+
+struct Found {
+    kind: String,
+    detail: String,
+    parent: u32,
+    op: Op,
+}
+
+/// Expands the frontier nodes `idxs`: all successors, counters and violations.
+fn expand(nodes: &[Node], idxs: &[u32], add_bound: u32, max_cap: usize, deadline: Instant) -> (Vec<Succ>, Vec<Found>, Counters, u64, bool) {
+    let mut succs = vec![];
+    let mut found = vec![];
+    let mut c = Counters::default();
+    let mut transitions = 0u64;
+    let mut alpha = vec![];
+    for (n, &i) in idxs.iter().enumerate() {
+        if n % 64 == 0 && Instant::now() > deadline {
+            return (succs, found, c, transitions, true);
+        }
+        let (init_cap, path) = path_of(nodes, i);
+        let before = &nodes[i as usize].model;
+        before.alphabet(add_bound, max_cap, &mut alpha);
+        for &op in &alpha {
+            c.replayed_ops += path.len() as u64;
+            let mut inf = match rebuild(init_cap, &path) {
+                Ok(x) => x,
+                Err((msg, loc)) => {
+                    // cannot happen: the prefix ran without a panic when the node was created
+                    found.push(Found {
+                        kind: "machinery-prefix-replay-panicked".into(),
+                        detail: format!("{} @ {}", msg, loc),
+                        parent: i,
+                        op,
+                    });
+                    continue;
+                }
+            };
+            let (s0, c0, cap0, inc0, _) = inf.verif_view();
+            let was_alloc = inf.buffer_capacity() > 0;
+            let wrapped0 = s0 + c0 > cap0;
+            transitions += 1;
+            let r = guarded(|| {
+                apply_impl(&mut inf, op);
+                inf
+            });
+            let inf = match r {
+                Ok(x) => x,
+                Err((msg, loc)) => {
+                    let kind = panic_kind(op);
+                    found.push(Found {
+                        kind,
+                        detail: format!(
+                            "{:?} panicked: {} @ {}; before: impl(start={}, count={}, cap={}, incoming_cap={:?}) model(window={:?}, cap_in_force={}, pending={:?}, full={})",
+                            op, msg, loc, s0, c0, cap0, inc0, before.win, before.cap, before.pending, before.full()
+                        ),
+                        parent: i,
+                        op,
+                    });
+                    continue;
+                }
+            };
+            let mut m = before.clone();
+            m.apply(op);
+            // non-vacuity bookkeeping (from the model and the read-only view)
+            let (s1, c1, cap1, _, _) = inf.verif_view();
+            if s1 + c1 > cap1 {
+                c.wraps += 1;
+            }
+            match op {
+                Op::Add(_) => {
+                    c.adds += 1;
+                    if !was_alloc {
+                        c.adds_into_unallocated += 1;
+                    }
+                }
+                Op::SetCap(n) => {
+                    if n == 0 {
+                        c.set_cap_zero += 1;
+                    }
+                    if n > before.cap {
+                        if wrapped0 {
+                            c.grow_wrapped += 1;
+                        } else if !before.win.is_empty() {
+                            c.grow_unwrapped_nonempty += 1;
+                        }
+                    } else if n < before.cap {
+                        if before.win.is_empty() {
+                            c.shrink_empty += 1;
+                        } else {
+                            c.shrink_nonempty += 1;
+                        }
+                    }
+                    if !before.full() && m.full() {
+                        c.set_cap_makes_full += 1;
+                    }
+                }
+                Op::FreeTo(v) => {
+                    let removed = before.win.len() - m.win.len();
+                    if removed == 0 {
+                        c.free_to_noop += 1;
+                    } else if m.win.is_empty() {
+                        c.free_to_all += 1;
+                    } else {
+                        c.free_to_partial += 1;
+                    }
+                    if !before.win.is_empty() && !before.win.contains(&v) && v > before.win[0] && v < *before.win.back().unwrap() {
+                        c.free_to_gap += 1;
+                    }
+                }
+                Op::MaybeFree => {
+                    if before.win.is_empty() {
+                        if was_alloc {
+                            c.maybe_free_released += 1;
+                        }
+                    } else {
+                        c.maybe_free_nonempty += 1;
+                    }
+                }
+                _ => {}
+            }
+            if before.pending.is_some() && m.win.is_empty() && !before.win.is_empty() {
+                c.drain_pending += 1;
+                if op == Op::Reset {
+                    c.drain_pending_by_reset += 1;
+                }
+            }
+            if m.full() {
+                c.full_seen += 1;
+                if m.pending.is_some() && m.win.len() < m.cap {
+                    c.full_by_pending += 1;
+                }
+            }
+            if let Some((kind, detail)) = compare(&inf, before, &m, op, was_alloc) {
+                found.push(Found { kind, detail, parent: i, op });
+                continue;
+            }
+            let key = pair_key(&inf, &m);
+            succs.push(Succ { parent: i, op, key, model: m });
+        }
+    }
+    (succs, found, c, transitions, false)
+}
+
+fn shuffle<T>(v: &mut [T], seed: u64) {
+    if seed == 0 {
+        return;
+    }
+    let mut s = seed;
+    for i in (1..v.len()).rev() {
+        s = crate::util::mix(s, i as u64);
+        v.swap(i, (s % (i as u64 + 1)) as usize);
+    }
+}
+
+pub fn run(tier: &str, seed: u64, budget_s: f64, threads: usize) -> CompResult {
+    let t0 = Instant::now();
+    let (add_bound, max_cap): (u32, usize) = if tier == "thorough" { (12, 6) } else { (8, 4) };
+    let state_cap: usize = 40_000_000;
+    let deadline = t0 + std::time::Duration::from_secs_f64((budget_s * 0.9).max(1.0));
+    let threads = threads.clamp(1, 64);
+
+    let mut nodes: Vec<Node> = vec![];
+    let mut seen: HashMap<String, u32> = HashMap::new();
+    let mut frontier: Vec<u32> = vec![];
+    let mut violations: Vec<(String, String, Value)> = vec![];
+    let mut counters = Counters::default();
+    let mut transitions = 0u64;
+    let mut cap_hit: Option<String> = None;
+
+    for c in 1..=max_cap {
+        let inf = Inflights::new(c);
+        let m = Model::new(c);
+        let key = pair_key(&inf, &m);
+        let idx = nodes.len() as u32;
+        // the initial pair must agree too
+        if inf.count() != 0 || inf.full() != m.full() {
+            violations.push((
+                "new-disagrees-with-model".into(),
+                format!("Inflights::new({}) count={} full={}", c, inf.count(), inf.full()),
+                ops_json(c, &[]),
+            ));
+        }
+        nodes.push(Node { parent: u32::MAX, op: 0, init_cap: c as u8, model: m });
+        seen.insert(key, idx);
+        frontier.push(idx);
+    }
+
+    let mut depth = 0u32;
+    let mut max_depth = 0u32;
+    while !frontier.is_empty() && violations.is_empty() {
+        shuffle(&mut frontier, seed.wrapping_add(depth as u64).wrapping_mul((seed != 0) as u64));
+        let chunk = frontier.len().div_ceil(threads).max(1);
+        let nodes_ref = &nodes;
+        let results: Vec<_> = std::thread::scope(|s| {
+            let hs: Vec<_> = frontier
+                .chunks(chunk)
+                .map(|ch| s.spawn(move || expand(nodes_ref, ch, add_bound, max_cap, deadline)))
+                .collect();
+            hs.into_iter().map(|h| h.join().expect("inflights worker died")).collect()
+        });
+        let mut next = vec![];
+        let mut timed_out = false;
+        for (succs, found, c, tr, to) in results {
+            counters.merge(&c);
+            transitions += tr;
+            timed_out |= to;
+            for f in found {
+                if violations.iter().any(|(k, _, _)| *k == f.kind) || violations.len() >= MAX_KINDS {
+                    continue;
+                }
+                let (init_cap, mut ops) = path_of(&nodes, f.parent);
+                ops.push(f.op);
+                violations.push((f.kind, f.detail, ops_json(init_cap, &ops)));
+            }
+            for su in succs {
+                if seen.contains_key(&su.key) {
+                    continue;
+                }
+                let idx = nodes.len() as u32;
+                let init_cap = nodes[su.parent as usize].init_cap;
+                nodes.push(Node { parent: su.parent, op: su.op.pack(), init_cap, model: su.model });
+                seen.insert(su.key, idx);
+                next.push(idx);
+            }
+        }
+        depth += 1;
+        if !next.is_empty() {
+            max_depth = depth;
+        }
+        if timed_out {
+            cap_hit = Some(format!("time budget ({:.0}s) exhausted at depth {}", budget_s, depth));
+            break;
+        }
+        if nodes.len() > state_cap {
+            cap_hit = Some(format!("state cap {} reached at depth {}", state_cap, depth));
+            break;
+        }
+        frontier = next;
+    }
+
+    // determinism self-check: re-execute a few hundred recorded paths from the initial state,
+    // step by step against the model, and compare the final pair key with the recorded one.
+    let mut validated = 0u64;
+    {
+        let by_idx: HashMap<u32, &String> = seen.iter().map(|(k, v)| (*v, k)).collect();
+        let n = nodes.len();
+        let want = 400usize.min(n);
+        let stride = (n / want.max(1)).max(1);
+        let mut i = n.saturating_sub(1);
+        let mut done = 0;
+        while done < want {
+            let (init_cap, ops) = path_of(&nodes, i as u32);
+            let r = guarded(|| {
+                let mut inf = Inflights::new(init_cap);
+                let mut m = Model::new(init_cap);
+                for &op in &ops {
+                    let before = m.clone();
+                    let was_alloc = inf.buffer_capacity() > 0;
+                    apply_impl(&mut inf, op);
+                    m.apply(op);
+                    if compare(&inf, &before, &m, op, was_alloc).is_some() {
+                        return None;
+                    }
+                }
+                Some(pair_key(&inf, &m))
+            });
+            let ok = matches!(&r, Ok(Some(k)) if Some(k) == by_idx.get(&(i as u32)).copied());
+            if !ok && violations.len() < MAX_KINDS && !violations.iter().any(|(k, _, _)| k == "replay-diverged") {
+                violations.push((
+                    "replay-diverged".into(),
+                    format!("re-executing the recorded path of pair #{} gave {:?}", i, r),
+                    ops_json(init_cap, &ops),
+                ));
+            }
+            validated += 1;
+            done += 1;
+            if i < stride {
+                break;
+            }
+            i -= stride;
+        }
+    }
+
+    // samples: the deepest path, one wrapped path, one mid path
+    let mut samples = vec![];
+    if !nodes.is_empty() {
+        for &i in &[nodes.len() - 1, nodes.len() / 2, nodes.len() / 7] {
+            let (init_cap, ops) = path_of(&nodes, i as u32);
+            samples.push(json!({"engine": ENGINE, "sample": ops_json(init_cap, &ops), "final_model_window": nodes[i].model.win}));
+        }
+    }
+
+    let must = [
+        counters.wraps,
+        counters.grow_wrapped,
+        counters.shrink_nonempty,
+        counters.drain_pending,
+        counters.adds,
+        counters.free_to_partial,
+        counters.full_seen,
+    ];
+    let nonvacuous = must.iter().all(|x| *x > 0) || !violations.is_empty();
+    let mut stats = counters.json();
+    stats["add_bound"] = json!(add_bound);
+    stats["max_depth"] = json!(max_depth);
+    stats["initial_capacities"] = json!((1..=max_cap).collect::<Vec<_>>());
+    stats["set_cap_values"] = json!((0..=max_cap).collect::<Vec<_>>());
+    let exhaustive = cap_hit.is_none() && violations.is_empty();
+    if !violations.is_empty() && cap_hit.is_none() {
+        cap_hit = Some("stopped at the first violations".into());
+    }
+    CompResult {
+        engine: ENGINE.into(),
+        states: nodes.len() as u64,
+        transitions,
+        validated,
+        exhaustive,
+        cap_hit,
+        samples,
+        stats,
+        violations,
+        nonvacuous,
+        wall_s: t0.elapsed().as_secs_f64(),
+    }
+}
+
+/// Re-executes one recorded operation sequence against the model. 1 if a disagreement (or an
+/// undocumented panic) reproduces, 0 if the sequence runs clean, 2 on malformed input.
+pub fn replay(j: &Value) -> i32 {
+    let ops_v = if j.get("ops").is_some_and(|o| o.is_object()) { &j["ops"] } else { j };
+    let Some(init_cap) = ops_v.get("init_cap").and_then(|x| x.as_u64()) else {
+        eprintln!("inflights replay: missing init_cap");
+        return 2;
+    };
+    let Some(arr) = ops_v.get("ops").and_then(|x| x.as_array()) else {
+        eprintln!("inflights replay: missing ops");
+        return 2;
+    };
+    let mut ops = vec![];
+    for o in arr {
+        match Op::from_json(o) {
+            Some(x) => ops.push(x),
+            None => {
+                eprintln!("inflights replay: bad op {}", o);
+                return 2;
+            }
+        }
+    }
+    let prop = j.get("property").and_then(|x| x.as_str()).unwrap_or("C18");
+    let mut outcomes = vec![];
+    for round in 0..2 {
+        let mut inf = Inflights::new(init_cap as usize);
+        let mut m = Model::new(init_cap as usize);
+        let mut outcome: Option<(usize, String, String)> = None;
+        if round == 0 {
+            println!("new({})", init_cap);
+        }
+        for (k, &op) in ops.iter().enumerate() {
+            if let Op::Add(_) = op {
+                if m.full() {
+                    eprintln!("inflights replay: step {} adds into a full window (documented panic) — not a legal sequence", k);
+                    return 2;
+                }
+            }
+            let before = m.clone();
+            let was_alloc = inf.buffer_capacity() > 0;
+            let r = guarded(|| {
+                apply_impl(&mut inf, op);
+            });
+            if let Err((msg, loc)) = r {
+                outcome = Some((k, panic_kind(op), format!("{:?} panicked: {} @ {}", op, msg, loc)));
+                break;
+            }
+            m.apply(op);
+            if round == 0 {
+                println!("  {:?} -> impl {:?} full={} | model window={:?} cap={} pending={:?} full={}", op, inf.verif_view(), inf.full(), m.win, m.cap, m.pending, m.full());
+            }
+            if let Some((kind, detail)) = compare(&inf, &before, &m, op, was_alloc) {
+                outcome = Some((k, kind, detail));
+                break;
+            }
+        }
+        outcomes.push(outcome);
+    }
+    if outcomes[0] != outcomes[1] {
+        println!("MACHINERY ERROR: two replays of the same sequence diverged");
+        return 2;
+    }
+    match &outcomes[0] {
+        Some((k, kind, detail)) => {
+            println!("violation at step {}: {} [{}] {}", k, prop, kind, detail);
+            println!("VIOLATION property={} engine={} kind={}", prop, ENGINE, kind);
+            1
+        }
+        None => {
+            println!("no violation of {} on this replay", prop);
+            0
+        }
+    }
 }
